@@ -18,6 +18,11 @@ base = json.load(open("/root/.vp/BASELINE.json"))["stable_pass"]
 ran_pkgs = {k.split("::")[0] for k in res}
 want = [t for t in base if t.split("::")[0] in ran_pkgs]
 bad = [t for t in want if res.get(t) != "pass"]
+all_pkgs = {t.split("::")[0] for t in base}
+if pkgs == ["./..."] and ran_pkgs != all_pkgs:
+    # a package that does not build (or dies before its first test) reports no test at all: that is a failure
+    print("packages of the baseline that reported no test (build failure / early death?):", sorted(all_pkgs - ran_pkgs))
+    bad = bad or ["<missing packages>"]
 print("packages run: %d, stable tests expected: %d, not passing: %d" % (len(ran_pkgs), len(want), len(bad)))
 for t in bad[:40]:
     print("  ", t, res.get(t))
